@@ -10,6 +10,12 @@ from typing_extensions import override
 import sopht.utils as spu
 
 
+def _xmf_file_name(h5_file_name: str, tag: str) -> str:
+    """Name of the XDMF side file: never the name of the hdf5 file itself."""
+    stem = h5_file_name[: -len(".h5")] if h5_file_name.endswith(".h5") else h5_file_name
+    return f"{stem}_{tag}.xmf"
+
+
 class IO:
     r"""IO class for field save and load.
 
@@ -510,7 +516,7 @@ class IO:
     </Domain>
 </Xdmf>
 """
-        with Path(h5_file_name.replace(".h5", "_eulerian.xmf")).open("w") as f:
+        with Path(_xmf_file_name(h5_file_name, "eulerian")).open("w") as f:
             f.write(xdmffile)
 
     def generate_xdmf_lagrangian(self, h5_file_name: str, time: float) -> None:
@@ -545,7 +551,7 @@ class IO:
                 """
 
         for lagrangian_grid_name in self.lagrangian_grids:
-            xmf_file_name = h5_file_name.replace(".h5", f"_{lagrangian_grid_name}.xmf")
+            xmf_file_name = _xmf_file_name(h5_file_name, lagrangian_grid_name)
             field_entries = ""
             lagrangian_grid = self.lagrangian_grids[lagrangian_grid_name]
             lagrangian_grid_size = np.flip(np.array(lagrangian_grid.shape))
